@@ -267,19 +267,20 @@ def run_api(rec: Recorder, dns_: ScriptedDNS, loop, rng) -> None:
     class Stop(BaseException):
         pass
 
-    real_cc = socket.create_connection
-    real_oc = asyncio.open_connection
+    from vf.instruments import transport as tr
 
-    def cc(addr, *a, **k):
-        connects.append(("sync", addr[0], addr[1]))
+    # the connection attempt itself is the observation: whichever API the client uses to open it ends in one of these
+    # factories (socket.create_connection / asyncio.open_connection directly, anything else through the transport bridge)
+    def sync_factory(host, port):
+        connects.append(("sync", host, port))
         raise Stop()
 
-    async def oc(host=None, port=None, **k):
+    def async_factory(host, port):
         connects.append(("async", host, port))
         raise Stop()
 
-    socket.create_connection = cc
-    asyncio.open_connection = oc
+    patch = tr.patched_connections(sync_factory, async_factory)
+    patch.__enter__()
     try:
         cache = dpapi_ng.KeyCache()
         rkid = uuid.UUID(int=77)
@@ -334,8 +335,7 @@ def run_api(rec: Recorder, dns_: ScriptedDNS, loop, rng) -> None:
                     rec.violation("api-discovery-host", f"{api}: connected to {connects[0]} but best hosts are {ok_hosts} (port 135)", wit)
             rec.case(("api", tuple(recs)))
     finally:
-        socket.create_connection = real_cc
-        asyncio.open_connection = real_oc
+        patch.__exit__(None, None, None)
 
 
 def replay(body, rec: Recorder):
